@@ -431,6 +431,14 @@ func judge(sn *scenario) {
 			}
 		}
 	}
+	for k, in := range sn.incs {
+		if in.Runaway {
+			run.Count("incarnations_aborted_runaway_transmissions", 1)
+			if sn.kill == nil { // once per script, not once per kill case
+				run.Inconclusive(fmt.Sprintf("script=%s inc=%d", sc.ID, k), fmt.Sprintf("more than %d transmissions in one incarnation (runaway re-sending); judged on the stream up to that point", maxTransmissionsPerIncarnation))
+			}
+		}
+	}
 	if nDown > sc.MaxRetries-2 {
 		// generator bug: would put the scenario outside the property's precondition
 		run.Inconclusive("script="+sc.ID, fmt.Sprintf("harness refused %d transmissions, budget %d", nDown, sc.MaxRetries-2))
